@@ -5,11 +5,11 @@ From RecordUpdate Require Import RecordSet.
 Import RecordSetNotations.
 
 (* arithmetic stays folded unless both arguments are literals *)
-Arguments Z.add : simpl never. Arguments Z.sub : simpl never. Arguments Z.mul : simpl never.
-Arguments Z.pow : simpl never. Arguments Z.div : simpl never. Arguments Z.min : simpl never.
-Arguments Z.max : simpl never. Arguments Z.to_nat : simpl never.
-Arguments Z.ltb !x !y : simpl nomatch. Arguments Z.leb !x !y : simpl nomatch.
-Arguments Z.eqb !x !y : simpl nomatch. Arguments Z.of_nat !n : simpl nomatch.
+Local Arguments Z.add : simpl never. Local Arguments Z.sub : simpl never. Local Arguments Z.mul : simpl never.
+Local Arguments Z.pow : simpl never. Local Arguments Z.div : simpl never. Local Arguments Z.min : simpl never.
+Local Arguments Z.max : simpl never. Local Arguments Z.to_nat : simpl never.
+Local Arguments Z.ltb !x !y : simpl nomatch. Local Arguments Z.leb !x !y : simpl nomatch.
+Local Arguments Z.eqb !x !y : simpl nomatch. Local Arguments Z.of_nat !n : simpl nomatch.
 
 (* ------------------------------------------------------------------ Z-indexed list slicing *)
 Lemma zlen_ztake : forall A n (l : list A), 0 <= n -> zlen (ztake n l) = Z.min n (zlen l).
@@ -97,21 +97,17 @@ Proof.
 Qed.
 
 (* ------------------------------------------------------------------ symbolic execution *)
-(* decide a stuck comparison from the hypotheses *)
-Ltac decide_cmp :=
-  match goal with
-  | |- context[Z.ltb ?a ?b] =>
-      first [rewrite (proj2 (Z.ltb_lt a b)) by lia | rewrite (proj2 (Z.ltb_ge a b)) by lia]
-  | |- context[Z.leb ?a ?b] =>
-      first [rewrite (proj2 (Z.leb_le a b)) by lia | rewrite (proj2 (Z.leb_gt a b)) by lia]
-  | |- context[Z.eqb ?a ?b] =>
-      first [rewrite (proj2 (Z.eqb_eq a b)) by lia | rewrite (proj2 (Z.eqb_neq a b)) by lia]
-  end.
+Ltac projs :=
+  cbn [s_cfg s_state s_step s_ready s_queue s_p s_step_before s_put s_seq_count s_seq_bits s_env
+       e_now e_fs e_reject_writes e_log
+       q_tid q_check_timer q_ack_timer q_ack_counter q_cond_eof q_progress q_segment_len q_file_size
+       q_empty_file q_md_only q_fin q_rcfg q_closure q_conf
+       sc_src sc_srcw sc_dst sc_dstw sc_seq sc_seqw sc_mode sc_large sc_crc fst snd].
 
 Ltac sx :=
   repeat (progress (unfold set, bind, ret, get, gets, put, modify, raise, when, gq, setq, sset_step, semit, snow,
                       stid_or_assert, srcfg_or_assert, put_or_assert, stmode, smode_is, sadd_packet, sstep_is,
-                      src_names, timed_out; cbn)).
+                      src_names, timed_out; cbn; projs)).
 
 Lemma read_len_eq : forall fsz seg off, 1 <= seg -> 0 <= off < fsz -> (fsz < seg -> off = 0 \/ off = fsz) ->
   (if fsz <? seg then fsz else if fsz <? off + seg then fsz - off else seg) = Z.min seg (fsz - off).
@@ -130,6 +126,9 @@ Proof.
     assert (zlen (zdrop off d) = Z.max 0 (zlen d - off)) by (apply zlen_zdrop; lia).
     unfold zlen in *. rewrite !firstn_all2 by lia. reflexivity.
 Qed.
+
+Lemma zsub_diag : forall n, n - n = 0. Proof. intros; lia. Qed.
+Lemma zeqb_refl : forall n, (n =? n) = true. Proof. apply Z.eqb_refl. Qed.
 
 Lemma pumps_S : forall k s,
   pumps (S k) s = match pump s with
@@ -175,6 +174,7 @@ Proof.
   - unfold calculate_checksum in Hck. rewrite E in Hck. inversion Hck. reflexivity.
   - rewrite Hlook, Hck. reflexivity.
 Qed.
+Local Opaque checksum_calculation.
 
 (* one call while data remains: exactly one File Data PDU, the next tile *)
 Lemma step_fd : forall off s, Inv off s -> off < zlen d ->
@@ -186,14 +186,263 @@ Proof.
   destruct s as [cfg st step ready queue q sb pt sc sbits [nw fs' rw lg]].
   destruct q. cbn in H1,H2,H3,H4,H5,H6,H7,H8,H9,H10,H11,H12,H13,H14,H15. subst.
   unfold pump, pump_with, state_machine_s.
-  destruct cf as [c1 c2 c3 c4 c5 c6 md c8 c9]. cbn in Hmode.
-  destruct H15 as [[Hs _]|Hs]; subst step; (destruct Hmode as [Hm|Hm]; subst md);
-    repeat (progress (sx; unfold sending_file_data_fsm, handle_retransmission, prepare_progressing_file_data_pdu,
-                        prepare_file_data_pdu, fs_read_data;
-                      rewrite ?Hnames, ?Hlook; try decide_cmp));
-    rewrite read_len_eq by lia; rewrite ztake_min by lia;
+  assert (E1 : (off <? zlen d) = true) by (apply Z.ltb_lt; lia).
+  assert (E2 : (off =? zlen d) = false) by (apply Z.eqb_neq; lia).
+  assert (E3 : (zlen d =? 0) = false) by (apply Z.eqb_neq; lia).
+  destruct H15 as [[Hs _]|Hs]; subst step; (destruct Hmode as [Hm|Hm]);
+    repeat (progress (sx; rewrite ?Hnames, ?Hlook, ?Hm, ?E1, ?E2, ?E3;
+                      unfold fsm_non_idle, fsm_advancement_s, sending_file_data_fsm, handle_retransmission,
+                        prepare_progressing_file_data_pdu, prepare_file_data_pdu, fs_read_data));
+    rewrite (read_len_eq (zlen d) seg off) by lia; rewrite ztake_min by lia;
     (eexists; split; [reflexivity|]);
-    unfold Inv; cbn; repeat split; try reflexivity; try lia; right; reflexivity.
+    unfold Inv; cbn; repeat split; try reflexivity; try lia;
+    try (right; reflexivity).
+Qed.
+
+Ltac unf_final :=
+  unfold fsm_non_idle, fsm_advancement_s, sending_file_data_fsm, handle_retransmission,
+    prepare_eof_pdu, handle_eof_sent, start_positive_ack_procedure_s, handle_waiting_for_ack,
+    handle_positive_ack_procedures_s, handle_wait_for_finish, notice_of_completion_s, sreset_internal.
+
+(* the call after the last tile: EOF, then the handler waits (or is done) *)
+Lemma step_final : forall s, Inv (zlen d) s ->
+  exists s', pump s = (s', Ok [PEof (hdr_of cf TOWARDS_RECEIVER) C_NO_ERROR cks (zlen d) None]) /\
+             s_step s' = (if sc_mode cf =? ACKED then SS_WAITING_FOR_EOF_ACK
+                          else if closure then SS_WAITING_FOR_FINISHED else SS_IDLE).
+Proof.
+  intros s HI.
+  destruct HI as (H1&H2&H3&H4&H5&H6&H7&H8&H9&H10&H11&H12&H13&H14&H15&H16&H17).
+  destruct s as [cfg st step ready queue q sb pt sc sbits [nw fs' rw lg]].
+  destruct q. cbn in H1,H2,H3,H4,H5,H6,H7,H8,H9,H10,H11,H12,H13,H14,H15. subst.
+  unfold pump, pump_with, state_machine_s.
+  assert (E1 : (zlen d <? zlen d) = false) by (apply Z.ltb_irrefl).
+  assert (E4 : zlen d = 0 -> (zlen d =? 0) = true) by (intro Hz; apply Z.eqb_eq; exact Hz).
+  destruct (l_ind_eof_sent c) eqn:Ee;
+  (destruct H15 as [[Hs Hz]|Hs]; subst step; [pose proof (E4 Hz) as E7 | pose proof E1 as E7]);
+  (destruct Hmode as [Hm|Hm];
+   [ (* acknowledged mode: wait for the EOF ACK, timer not expired *)
+     assert (E5 : (r_ack_ms r <=? 0) = false) by (apply Z.leb_gt; auto);
+     repeat (progress (sx; rewrite ?Hnames, ?Hlook, ?Hm, ?Ee, ?zsub_diag, ?zeqb_refl, ?E1, ?E7, ?E5;
+                       rewrite ?cc_ok by reflexivity; unf_final))
+   | destruct closure eqn:Ecl;
+     [ (* unacknowledged with closure: wait for Finished, check timer not expired *)
+       assert (E6 : (l_check_ms c <=? 0) = false) by (apply Z.leb_gt; auto);
+       repeat (progress (sx; rewrite ?Hnames, ?Hlook, ?Hm, ?Ee, ?zsub_diag, ?zeqb_refl, ?E1, ?E7, ?E6;
+                         rewrite ?cc_ok by reflexivity; unf_final))
+     | (* unacknowledged without closure: notice of completion, reset *)
+       destruct q_fin as [[[[fa fb] fc] fd]|]; destruct (l_ind_fin c) eqn:Ef;
+       repeat (progress (sx; rewrite ?Hnames, ?Hlook, ?Hm, ?Ee, ?Ef, ?zsub_diag, ?zeqb_refl, ?E1, ?E7;
+                         rewrite ?cc_ok by reflexivity; unf_final)) ] ]);
+  (eexists; split; reflexivity).
+Qed.
+
+(* all remaining calls: the remaining tiles, then EOF *)
+Lemma run_main : forall n off s, Inv off s -> (length (zdrop off d) <= n)%nat ->
+  exists s',
+    pumps (S (length (tiles_from n off seg (zdrop off d)))) s =
+      (s', Ok (map (fun t => [fd_of (hdr_of cf TOWARDS_RECEIVER) t]) (tiles_from n off seg (zdrop off d))
+               ++ [[PEof (hdr_of cf TOWARDS_RECEIVER) C_NO_ERROR cks (zlen d) None]])) /\
+    s_step s' = (if sc_mode cf =? ACKED then SS_WAITING_FOR_EOF_ACK
+                 else if closure then SS_WAITING_FOR_FINISHED else SS_IDLE).
+Proof.
+  induction n as [|n IH]; intros off s HI Hn.
+  - assert (Hr : 0 <= off <= zlen d) by (destruct HI as (_&_&_&_&_&_&_&_&_&_&_&_&_&_&_&H&_); exact H).
+    assert (Hz : zlen (zdrop off d) = 0) by (unfold zlen; lia).
+    rewrite zlen_zdrop in Hz by lia. assert (off = zlen d) by lia. subst off.
+    cbn [tiles_from length map app]. rewrite pumps_S.
+    destruct (step_final s HI) as [s' [P1 P2]]. rewrite P1. cbn [pumps].
+    exists s'. split; [reflexivity | exact P2].
+  - assert (Hr : 0 <= off <= zlen d) by (destruct HI as (_&_&_&_&_&_&_&_&_&_&_&_&_&_&_&H&_); exact H).
+    destruct (Z.eq_dec off (zlen d)) as [He|He].
+    + subst off. rewrite (zdrop_all _ (zlen d) d) by lia. rewrite tiles_from_nil.
+      cbn [length map app]. rewrite pumps_S.
+      destruct (step_final s HI) as [s' [P1 P2]]. rewrite P1. cbn [pumps].
+      exists s'. split; [reflexivity | exact P2].
+    + assert (Hlt : off < zlen d) by lia.
+      assert (Hne : zdrop off d <> []).
+      { intro E. assert (Hz : zlen (zdrop off d) = 0) by (rewrite E; reflexivity).
+        rewrite zlen_zdrop in Hz by lia. lia. }
+      rewrite tiles_from_cons by exact Hne.
+      destruct (step_fd off s HI Hlt) as [s1 [P1 I1]].
+      set (off' := off + Z.min seg (zlen d - off)) in *.
+      assert (Ht : tiles_from n (off + seg) seg (zdrop seg (zdrop off d)) =
+                   tiles_from n off' seg (zdrop off' d)).
+      { rewrite zdrop_zdrop by lia. unfold off'.
+        destruct (Z.le_gt_cases seg (zlen d - off)).
+        - rewrite Z.min_l by lia. reflexivity.
+        - rewrite Z.min_r by lia.
+          rewrite (zdrop_all _ (off + seg) d) by lia.
+          rewrite (zdrop_all _ (off + (zlen d - off)) d) by lia.
+          rewrite !tiles_from_nil. reflexivity. }
+      rewrite Ht.
+      assert (Hn' : (length (zdrop off' d) <= n)%nat).
+      { assert (Hz : zlen (zdrop off d) = Z.max 0 (zlen d - off)) by (apply zlen_zdrop; lia).
+        assert (Hz' : zlen (zdrop off' d) = Z.max 0 (zlen d - off')) by (apply zlen_zdrop; unfold off'; lia).
+        unfold zlen in Hz, Hz'. unfold off' in *. lia. }
+      destruct (IH off' s1 I1 Hn') as [s' [Q1 Q2]].
+      cbn [length map app]. rewrite pumps_S, P1, Q1.
+      exists s'. split; [reflexivity | exact Q2].
+Qed.
+
+(* queueing the Metadata PDU and retrieving it *)
+Lemma md_pump : forall s, Inv 0 s ->
+  exists s3,
+    (match prepare_metadata_pdu s with
+     | (s'', Ok _) => let '(s3, ps) := drain_s s'' in (s3, Ok ps)
+     | (s'', Err e) => (s'', Err e)
+     end) =
+    (s3, Ok [PMetadata (hdr_of cf TOWARDS_RECEIVER) closure (r_cktype r) (zlen d) (Some (sn, dn))
+               (match pr_msgs p with Some l => l | None => [] end)]) /\
+    Inv 0 s3.
+Proof.
+  intros s HI.
+  destruct HI as (H1&H2&H3&H4&H5&H6&H7&H8&H9&H10&H11&H12&H13&H14&H15&H16&H17).
+  destruct s as [cfg st step ready queue q sb pt sc sbits [nw fs' rw lg]].
+  destruct q. cbn in H1,H2,H3,H4,H5,H6,H7,H8,H9,H10,H11,H12,H13,H14,H15. subst.
+  unfold prepare_metadata_pdu, drain_s.
+  repeat (progress (sx; rewrite ?Hnames)).
+  eexists. split; [reflexivity|].
+  unfold Inv; cbn. repeat split; try reflexivity; try lia; exact H15.
 Qed.
 
 End Run.
+
+
+(* ------------------------------------------------------------------ the first call *)
+Local Arguments max_file_seg_len : simpl never.
+Local Arguments lookup : simpl never.
+Lemma mfsl_ok : forall h maxp, hdr_len h + fss_len h + crc_len h <= maxp ->
+  max_file_seg_len h maxp = Some (maxp - (hdr_len h + fss_len h + crc_len h)).
+Proof.
+  intros h maxp H. unfold max_file_seg_len.
+  rewrite (proj2 (Z.ltb_ge maxp (hdr_len h + fss_len h + crc_len h))) by lia. reflexivity.
+Qed.
+
+
+Definition st1 (c : lcfg) (p : putreq) (r : rcfg) (fs : tree) (seq0 bits mode : Z) (closure : bool) (step : Z) : src :=
+  mkSrc c ST_BUSY step 0 []
+    (mkSP None None None 0 None 0 0 (Some 0) false false None (Some r) closure
+       (mkSconf (l_id c) (l_idw c) (pr_dst p) (pr_dstw p) 0 0 mode false false))
+    None (Some p) seq0 bits (mkEnv 0 fs false []).
+
+Lemma ts_ok : forall (c : lcfg) (seq0 bits : Z) (fs : tree) (p : putreq) (r : rcfg) (sn dn : path) (d : bytes)
+    (mode : Z) (closure : bool),
+  let w := Z.max (l_idw c) (pr_dstw p) in
+  let large := 4294967295 <? zlen d in
+  let derived := r_max_packet r - (4 + 2 * w + bits / 8) - (if large then 8 else 4) - (if r_crc r then 2 else 0) in
+  let seg := match r_max_seg r with Some m => Z.min m derived | None => derived end in
+  let cf := mkSconf (l_id c) w (pr_dst p) w seq0 (bits / 8) mode large (r_crc r) in
+  pr_names p = Some (sn, dn) -> lookup fs sn = Some (File d) ->
+  (bits = 8 \/ bits = 16 \/ bits = 32) -> 0 <= seq0 < 2 ^ bits ->
+  1 <= seg ->
+  exists s2,
+    transaction_start (st1 c p r fs seq0 bits mode closure SS_TRANSACTION_START) = (s2, Ok tt) /\
+    Inv c p r fs d cf seg closure (l_id c, seq0) 0 (s2 <| s_step := SS_SENDING_METADATA |>).
+Proof.
+  intros c seq0 bits fs p r sn dn d mode closure w large derived seg cf Hn Hl Hb Hs Hseg.
+  assert (Hd : 1 <= derived).
+  { unfold seg in Hseg. destruct (r_max_seg r); lia. }
+  destruct p as [dst dstw pm pc pn pmsg]. cbn in Hn, w, cf. subst pn.
+  subst cf seg derived large w.
+  unfold st1.
+  assert (Hlen : 0 <= zlen d) by (unfold zlen; lia).
+  assert (E2 : (2 ^ bits <=? seq0) = false) by (apply Z.leb_gt; lia).
+  assert (E3 : (bits =? 8) || (bits =? 16) || (bits =? 32) = true).
+  { destruct Hb as [Hb|[Hb|Hb]]; subst bits; reflexivity. }
+  unfold transaction_start.
+  destruct (zlen d =? 0) eqn:Ez.
+  - pose proof Ez as Ez'. apply Z.eqb_eq in Ez'. rewrite Ez' in Hd. cbn in Hd.
+    repeat (progress (sx; rewrite ?Hl, ?Ez, ?E2, ?E3;
+                      rewrite ?mfsl_ok by (unfold hdr_len, fss_len, crc_len; cbn; lia);
+                      unfold fs_file_exists, exists_, fs_file_size)).
+    unfold Inv. rewrite Ez'. eexists. split; [reflexivity|]. unfold set; cbn.
+    repeat split; try reflexivity; try lia; try (left; split; reflexivity).
+    unfold hdr_len, crc_len. cbn.
+    destruct (r_max_seg r) as [m|]; [|lia].
+    destruct (m <? _) eqn:E; [apply Z.ltb_lt in E | apply Z.ltb_ge in E]; lia.
+  - pose proof Ez as Ez'. apply Z.eqb_neq in Ez'.
+    repeat (progress (sx; rewrite ?Hl, ?Ez, ?E2, ?E3;
+                      rewrite ?mfsl_ok by (unfold hdr_len, fss_len, crc_len; cbn; lia);
+                      unfold fs_file_exists, exists_, fs_file_size)).
+    unfold Inv. eexists. split; [reflexivity|]. unfold set; cbn.
+    repeat split; try reflexivity; try lia; try (left; split; reflexivity).
+    unfold hdr_len, crc_len, fss_len. cbn.
+    destruct (r_max_seg r) as [m|]; [|lia].
+    destruct (m <? _) eqn:E; [apply Z.ltb_lt in E | apply Z.ltb_ge in E]; lia.
+Qed.
+
+Local Arguments transaction_start : simpl never.
+Local Arguments prepare_metadata_pdu : simpl never.
+
+Lemma pr_ok : forall (c : lcfg) (seq0 bits : Z) (fs : tree) (p : putreq) (r : rcfg) (sn dn : path) (d : bytes),
+  get_remote (l_remotes c) (pr_dst p) = Some r ->
+  pr_names p = Some (sn, dn) -> lookup fs sn = Some (File d) ->
+  put_request p (src_fresh c seq0 bits fs) =
+    (st1 c p r fs seq0 bits (match pr_mode p with Some m => m | None => r_mode r end)
+         (match pr_closure p with Some b => b | None => r_closure r end) SS_IDLE, Ok true).
+Proof.
+  intros c seq0 bits fs p r sn dn d Hr Hn Hl.
+  unfold put_request, src_fresh, src_init, init_sparams, empty_sconf, st1.
+  repeat (progress (sx; rewrite ?Hr, ?Hn, ?Hl; unfold fs_file_exists, exists_)).
+  reflexivity.
+Qed.
+
+Lemma pump_call1 : forall c p r fs seq0 bits mode closure,
+  pump (st1 c p r fs seq0 bits mode closure SS_IDLE) =
+    match transaction_start (st1 c p r fs seq0 bits mode closure SS_TRANSACTION_START) with
+    | (s', Ok _) =>
+        match prepare_metadata_pdu (s' <| s_step := SS_SENDING_METADATA |>) with
+        | (s'', Ok _) => let '(s3, ps) := drain_s s'' in (s3, Ok ps)
+        | (s'', Err e) => (s'', Err e)
+        end
+    | (s', Err e) => (s', Err e)
+    end.
+Proof.
+  intros. unfold pump, pump_with, state_machine_s, st1.
+  repeat (progress (sx; unfold fsm_non_idle, fsm_advancement_s)).
+  destruct (transaction_start _) as [s' [[]|e]]; [|reflexivity].
+  repeat (progress sx).
+  destruct (prepare_metadata_pdu _) as [s'' [[]|e]]; reflexivity.
+Qed.
+
+(* ------------------------------------------------------------------ C07: the whole stream *)
+Lemma src_stream :
+  forall (c : lcfg) (seq0 bits : Z) (fs : tree) (p : putreq) (r : rcfg) (sn dn : path) (d cks : bytes),
+  let w := Z.max (l_idw c) (pr_dstw p) in
+  let large := 4294967295 <? zlen d in
+  let derived := r_max_packet r - (4 + 2 * w + bits / 8) - (if large then 8 else 4) - (if r_crc r then 2 else 0) in
+  let seg := match r_max_seg r with Some m => Z.min m derived | None => derived end in
+  let mode := match pr_mode p with Some m => m | None => r_mode r end in
+  let closure := match pr_closure p with Some b => b | None => r_closure r end in
+  let h := mkHdr TOWARDS_RECEIVER mode (r_crc r) large (l_id c) (pr_dst p) w seq0 (bits / 8) in
+  let msgs := match pr_msgs p with Some l => l | None => [] end in
+  get_remote (l_remotes c) (pr_dst p) = Some r ->
+  pr_names p = Some (sn, dn) -> lookup fs sn = Some (File d) -> sn <> [] ->
+  (bits = 8 \/ bits = 16 \/ bits = 32) -> 0 <= seq0 < 2 ^ bits ->
+  1 <= seg -> (mode = ACKED \/ mode = UNACKED) ->
+  calculate_checksum (r_cktype r) (Some d) (zlen d) seg = Ok cks ->
+  (mode = ACKED -> 0 < r_ack_ms r) -> (mode = UNACKED -> closure = true -> 0 < l_check_ms c) ->
+  let s1 := fst (put_request p (src_fresh c seq0 bits fs)) in
+  exists s',
+    pumps (2 + length (tiles seg d)) s1 =
+      (s', Ok ([PMetadata h closure (r_cktype r) (zlen d) (Some (sn, dn)) msgs]
+               :: map (fun t => [fd_of h t]) (tiles seg d)
+               ++ [[PEof h C_NO_ERROR cks (zlen d) None]])) /\
+    s_step s' = (if mode =? ACKED then SS_WAITING_FOR_EOF_ACK
+                 else if closure then SS_WAITING_FOR_FINISHED else SS_IDLE).
+Proof.
+  intros c seq0 bits fs p r sn dn d cks w large derived seg mode closure h msgs
+         Hr Hn Hl Hsn Hb Hs Hseg Hmode Hck Hack Hchk s1.
+  set (cf := mkSconf (l_id c) w (pr_dst p) w seq0 (bits / 8) mode large (r_crc r)).
+  destruct (ts_ok c seq0 bits fs p r sn dn d mode closure Hn Hl Hb Hs Hseg) as [s2 [T1 T2]].
+  fold w large cf in T2. fold derived in T2. fold seg in T2.
+  destruct (md_pump c p r fs d cf seg closure (l_id c, seq0) sn dn Hn _ T2) as [s3 [M1 M2]].
+  assert (Hlen : (length (zdrop 0 d) <= length d)%nat) by (rewrite zdrop_0; apply le_n).
+  destruct (run_main c p r fs d cks cf seg closure (l_id c, seq0) sn dn Hn Hl Hseg Hmode Hck Hack Hchk
+              (length d) 0 s3 M2 Hlen) as [s' [R1 R2]].
+  rewrite zdrop_0 in R1. fold (tiles seg d) in R1.
+  exists s'. split; [|exact R2].
+  unfold s1. rewrite (pr_ok c seq0 bits fs p r sn dn d Hr Hn Hl). cbn [fst].
+  change (2 + length (tiles seg d))%nat with (S (S (length (tiles seg d)))).
+  rewrite pumps_S, pump_call1. fold mode closure. rewrite T1, M1, R1. reflexivity.
+Qed.
